@@ -106,10 +106,15 @@ func ZZVerifC11Close() {
 	nd.Schedule(nd.Param("P", 1))
 	log := &zzLog{}
 	shape := nd.Choose("shape", 3) // 0 root only, 1 shared child, 2 isolated child
-	failEvIdx := nd.Choose("fail-listener", len(zzCloseEvents)+1)
+	// which listener fails: the quick tier tries a representative subset
+	candidates := zzCloseEvents
+	if nd.Param("FL", 8) < 8 {
+		candidates = []int{app.BeforeCloseEvent, app.CommitEvent, app.BeforeRollbackEvent, app.AfterCloseEvent}
+	}
+	failEvIdx := nd.Choose("fail-listener", len(candidates)+1)
 	failWho, failEv := "", -1
-	if failEvIdx < len(zzCloseEvents) {
-		failEv = zzCloseEvents[failEvIdx]
+	if failEvIdx < len(candidates) {
+		failEv = candidates[failEvIdx]
 		failWho = "root"
 		if shape != 0 && nd.Choose("fail-on-child", 2) == 1 {
 			failWho = "child"
@@ -126,7 +131,7 @@ func ZZVerifC11Close() {
 		child = NewChild(root, cp)
 		zzListen(child, "child", log, failWho, failEv)
 	}
-	action := nd.Choose("task-action", 4) // 0 nothing, 1 append error, 2 kill, 3 stop
+	action := nd.IntRange("task-action", 0, 3) // 0 nothing, 1 append error, 2 kill, 3 stop (symbolic)
 	onChild := shape != 0 && nd.Choose("action-on-child", 2) == 1
 	nd.Assume(root.AddTasks(1) == nil)
 	if onChild {
